@@ -106,6 +106,7 @@ func (c04) Plan(tier string, seed int64) []mon.Workload {
 		{Name: "self-insertion", N: int64(len(c04SelfSetups) * len(c04SelfWrites)), Exhaustive: true},
 		{Name: "literal-fresh", N: int64(len(c18Literals) * len(c18LitWrites) * 2), Exhaustive: true},
 		{Name: "computed-keys", N: int64(len(c04KeyStmts) * len(c04KeyWraps)), Exhaustive: true},
+		{Name: "decoded-twice", N: int64(len(c04JSONTexts) * len(c04JSONUses)), Exhaustive: true},
 	}
 }
 
@@ -160,6 +161,35 @@ func c04ComputedKeys(i int64) c04Case {
 	return c04Case{Stmts: gt.CloneStmts(l), Nontrivial: true}
 }
 
+// decoded-twice (exhaustive): values that come out of a builtin are values
+// like any other: two load_json calls on the same text give two independent
+// containers (a write into one does not show in the other, a reload after a
+// write gives the original again), also when the text comes from the point.
+var c04JSONTexts = []string{"[1, 2, 3]", "{\\\"a\\\": [1, 2], \\\"b\\\": {\\\"c\\\": 0}}", "[[1], [2]]", "[]", "{\\\"k\\\": \\\"v\\\"}"}
+var c04JSONUses = []string{
+	"a = load_json(T)\nb = load_json(T)\na[0] = 9\np(a, b)\n",
+	"a = load_json(T)\na[\"a\"] = \"changed\"\nb = load_json(T)\np(a, b)\n",
+	"add_key(doc, T)\na = load_json(doc)\nb = load_json(doc)\nb[-1] = [\"x\"]\np(a, b, len(a), 2 in a)\n",
+	"for i = 0; i < 2; i = i + 1 {\n  a = load_json(T)\n  p(a)\n  a[0] = i + 7\n  a[\"k\"] = i\n}\n",
+	"a = load_json(T)\nc = a\nb = load_json(T)\nc[0] = \"via c\"\nc[\"b\"] = nil\np(a, b, c)\nadd_key(snap, b)\nb[0] = 1.5\np(snap)\n",
+	"a = load_json(_)\nb = load_json(_)\na[0] = \"m\"\np(a, b)\n",
+}
+
+func c04DecodedTwice(i int64) c04Case {
+	use := c04JSONUses[int(i)%len(c04JSONUses)]
+	t := c04JSONTexts[int(i)/len(c04JSONUses)]
+	text := strings.ReplaceAll(use, "T", "\""+t+"\"")
+	o := drive.Parse("decoded-twice", text)
+	if o.Err != nil {
+		panic("c04: decoded-twice program does not parse: " + text + ": " + o.Err.Error())
+	}
+	l, err := gt.FromStmts(o.Stmts)
+	if err != nil {
+		panic(err)
+	}
+	return c04Case{Stmts: gt.CloneStmts(l), Nontrivial: true}
+}
+
 func c04SelfCase(i int64) c04Case {
 	text := c04SelfSetups[int(i)%len(c04SelfSetups)] + c04SelfWrites[int(i)/len(c04SelfSetups)]
 	o := drive.Parse("self-insertion", text)
@@ -185,6 +215,8 @@ func (c04) build(c *mon.Ctx, workload string, i int64) c04Case {
 		return c04SelfCase(i)
 	case "computed-keys":
 		return c04ComputedKeys(i)
+	case "decoded-twice":
+		return c04DecodedTwice(i)
 	case "literal-fresh":
 		// the table of C18, on the v1 interpreter
 		return c04Case{Stmts: c18LiteralFresh(i), Nontrivial: true}
@@ -337,6 +369,10 @@ func (k c04) Run(c *mon.Ctx, workload string, i int64) {
 	const name = "c04.p"
 	prog := &ref.Program{Scripts: map[string][]*gt.T{name: stmts}, Funcs: ref.Merge(ref.ProbeFuncs(), ref.PointFuncs())}
 	mp := ref.NewPoint("m", nil, map[string]any{"message": "msg"}, gen.ModelPoint(c.R, nil, nil).Time)
+	if workload == "decoded-twice" {
+		prog.Funcs = ref.Merge(ref.ProbeFuncs(), ref.FieldFuncs())
+		mp.Fields["message"] = "[5, 6, {\"z\": 1}]"
+	}
 	model := mp.Clone()
 	mo := ref.Run(prog, name, model, modelBudget)
 	info := map[string]any{"source": src}
